@@ -386,6 +386,65 @@ def family_names(thorough):
                 yield item('names', 'siblings:%s|%s|%s' % tuple(trip), _names_siblings(K, *trip), mode='either')
 
 
+# ---------------------------------------------------------------------------------------------- family: prefix names
+PREFIX_PAIRS = (('a', 'aa'), ('a', 'ab'), ('a', 'a-b'), ('a', 'a.b'), ('a', 'a_b'), ('sim', 'sim-post'), ('a', 'ba'),
+                ('p', 'p.txt'))
+
+
+def family_prefix_names(thorough):
+    """two producers whose step names are related as strings but are different path elements (one name is a string
+    prefix / suffix of the other, or equals a path element used in the reference), both referenced by one consumer,
+    under every order of the execute list (the order decides which component the compiler discovers first):
+    siblings of the consumer, inside a nested workflow, handed down through parameters, and as names of two workflow
+    steps. The two producers get different arguments, so swapping them is visible up to renaming."""
+    P = comp('P', [('m', 'dP')], 'm=%(m)s')
+    CC = comp('CC', [('sa', NODEF), ('sb', NODEF), ('m', 'dCC')], '-a %(sa)s -b %(sb)s m=%(m)s')
+    counter = 0
+    for short, long_ in PREFIX_PAIRS:
+        for path in ('', '/f.txt', '/' + short, '/' + long_):
+            counter += 1
+            ma, mb = METHODS[counter % 5], METHODS[(counter + 2) % 5]
+            # flat: consumer and both producers are siblings
+            steps = [(short, 'P', {'m': 'S'}), (long_, 'P', {'m': 'L'}),
+                     ('k', 'CC', {'sa': '<%s>%s:%s' % (short, path, ma), 'sb': '"<%s>"%s:%s' % (long_, path, mb)})]
+            for oi, order in enumerate(itertools.permutations(range(3))):
+                yield item('prefix-names', 'flat:%s|%s|%s|o%d' % (short, long_, path, oi),
+                           ns('main', {}, [wf('main', [], [steps[i] for i in order])], [P, CC]),
+                           rep=(oi == 0 and path == ''))
+            # consumer one level down, references handed down through parameters
+            Ta = wf('Ta', [('sa', NODEF), ('sb', NODEF)], [('k', 'CC', {'sa': '%%(sa)s%s:%s' % (path, ma), 'sb': '%(sb)s'})])
+            steps = [(short, 'P', {'m': 'S'}), (long_, 'P', {'m': 'L'}),
+                     ('t', 'Ta', {'sa': '<%s>' % short, 'sb': '<%s%s>:%s' % (long_, path, mb)})]
+            for oi, order in enumerate(itertools.permutations(range(3))):
+                yield item('prefix-names', 'handed-down:%s|%s|%s|o%d' % (short, long_, path, oi),
+                           ns('main', {}, [wf('main', [], [steps[i] for i in order]), Ta], [P, CC]))
+            # producers inside a nested workflow, consumer above and a second consumer inside
+            for oi, order in enumerate(itertools.permutations(range(3))):
+                inner = [(short, 'P', {'m': 'S'}), (long_, 'P', {'m': 'L'}),
+                         ('k', 'CC', {'sa': '<%s%s>:%s' % (long_, path, ma), 'sb': '<%s>%s:%s' % (short, path, mb)})]
+                Wa = wf('Wa', [], [inner[i] for i in order])
+                main = wf('main', [], [('w', 'Wa', {}), ('k', 'CC', {'sa': '<w/%s>%s:%s' % (short, path, ma),
+                                                                    'sb': '"<w>"/%s%s:%s' % (long_, path, mb)})])
+                yield item('prefix-names', 'nested:%s|%s|%s|o%d' % (short, long_, path, oi),
+                           ns('main', {}, [main, Wa], [P, CC]))
+            # the related names are names of two workflow steps (and of a component next to a workflow)
+            if short.endswith('.txt') or long_.endswith('.txt'):
+                continue
+            Wp = wf('Wp', [('m', 'dWp')], [('p', 'P', {'m': '%(m)s'})])
+            steps = [(short, 'Wp', {'m': 'S'}), (long_, 'Wp', {'m': 'L'}),
+                     ('k', 'CC', {'sa': '<%s/p>%s:%s' % (short, path, ma), 'sb': '"<%s>"/p%s:%s' % (long_, path, mb)})]
+            for oi, order in enumerate(itertools.permutations(range(3))):
+                yield item('prefix-names', 'workflows:%s|%s|%s|o%d' % (short, long_, path, oi),
+                           ns('main', {}, [wf('main', [], [steps[i] for i in order]), Wp], [P, CC]))
+            for which in (0, 1):
+                cname, wname = (short, long_) if which == 0 else (long_, short)
+                steps = [(cname, 'P', {'m': 'C'}), (wname, 'Wp', {'m': 'W'}),
+                         ('k', 'CC', {'sa': '<%s>%s:%s' % (cname, path, ma), 'sb': '<%s/p%s>:%s' % (wname, path, mb)})]
+                for oi, order in enumerate(itertools.permutations(range(3))):
+                    yield item('prefix-names', 'component-and-workflow%d:%s|%s|%s|o%d' % (which, short, long_, path, oi),
+                               ns('main', {}, [wf('main', [], [steps[i] for i in order]), Wp], [P, CC]))
+
+
 # ---------------------------------------------------------------------------------------------- family: cycles
 def family_cycles(thorough):
     """hand-written invalid namespaces that single-site mutations cannot reach: data-flow cycles between steps"""
@@ -584,6 +643,7 @@ def canon(doc):
 
 
 def base_items(thorough):
-    for fam in (family_multi, family_cycles, family_environments, family_literals, family_references, family_names):
+    for fam in (family_multi, family_cycles, family_environments, family_prefix_names, family_literals,
+                family_references, family_names):
         for it in fam(thorough):
             yield it
